@@ -1012,3 +1012,36 @@ V("C13", "code4-exponent-mask-strict", "fire", "C13.R3", "code 4 takes exponent 
   ("src/pyhf/interpolators/code4.py", "            exponents >= self.__alpha0, exponents, self.ones", "            exponents > self.__alpha0, exponents, self.ones"))
 V("C06", "qmu-tilde-clamps-callers-bounds", "fire", "C06.R7", "qmu_tilde replaces a negative lower POI bound IN the caller's bounds list",
   ("src/pyhf/infer/test_statistics.py", "            + 'If you called this from pyhf.infer.mle or pyhf.infer.hypotest, set test_stat=\"q\".'\n        )\n    return _qmu_like(", "            + 'If you called this from pyhf.infer.mle or pyhf.infer.hypotest, set test_stat=\"q\".'\n        )\n        if par_bounds[pdf.config.poi_index][0] < 0:\n            par_bounds[pdf.config.poi_index] = (0.0, par_bounds[pdf.config.poi_index][1])\n    return _qmu_like("))
+# ------------------------------------------------------------------ other spellings, correct (silent) and broken (fire): the rules must
+# decide the PROGRAM -- a helper, a module-level table, itertools instead of a running offset -- not one way of writing it
+_MIX_LOOP = "        self._channel_slices = {}\n        begin = 0\n        for c in self._channels:\n            end = begin + self._channel_nbins[c]\n            self._channel_slices[c] = slice(begin, end)\n            begin = end\n"
+V("C12", "slices-by-accumulate", "silent", "", "channel slices through itertools.accumulate instead of a running offset",
+  ("src/pyhf/mixins.py", "from __future__ import annotations\n", "from __future__ import annotations\nfrom itertools import accumulate\n"),
+  ("src/pyhf/mixins.py", _MIX_LOOP, "        ends = list(accumulate(self._channel_nbins[c] for c in self._channels))\n        begins = [0, *ends[:-1]]\n        self._channel_slices = {c: slice(b, e) for c, b, e in zip(self._channels, begins, ends)}\n"))
+V("C12", "slices-by-accumulate-shifted", "fire", "C12.R8", "the accumulate spelling with the begins shifted by one channel",
+  ("src/pyhf/mixins.py", "from __future__ import annotations\n", "from __future__ import annotations\nfrom itertools import accumulate\n"),
+  ("src/pyhf/mixins.py", _MIX_LOOP, "        ends = list(accumulate(self._channel_nbins[c] for c in self._channels))\n        begins = [0, *ends[1:]]\n        self._channel_slices = {c: slice(b, e) for c, b, e in zip(self._channels, begins, ends)}\n"))
+_TV_LOOP = "    target_slices = []\n    start = 0\n    for sz in sizes:\n        stop = start + sz\n        target_slices.append(slice(start, stop))\n        start = stop\n"
+V("C12", "viewer-sizes-by-accumulate", "silent", "", "_tensorviewer_from_sizes through itertools.accumulate",
+  ("src/pyhf/tensor/common.py", _TV_LOOP, "    import itertools\n    stops = list(itertools.accumulate(sizes))\n    starts = [0] + stops[:-1]\n    target_slices = [slice(a, b) for a, b in zip(starts, stops)]\n"))
+V("C12", "viewer-sizes-by-accumulate-overlap", "fire", "C12.R1", "the accumulate spelling with every block starting at 0",
+  ("src/pyhf/tensor/common.py", _TV_LOOP, "    import itertools\n    stops = list(itertools.accumulate(sizes))\n    starts = [0 for _ in stops]\n    target_slices = [slice(a, b) for a, b in zip(starts, stops)]\n"))
+_TS_MAP = "    _mapping = {\n        \"q0\": q0,\n        \"q\": qmu,\n        \"qtilde\": qmu_tilde,\n    }\n    try:\n        return _mapping[name]\n"
+V("C06", "table-at-module-level", "silent", "", "the name->statistic table hoisted to a read-only module constant",
+  ("src/pyhf/infer/utils.py", "def get_test_stat(name):", "import types\n\n_TEST_STATS = types.MappingProxyType({\"q0\": q0, \"q\": qmu, \"qtilde\": qmu_tilde})\n\n\ndef get_test_stat(name):"),
+  ("src/pyhf/infer/utils.py", _TS_MAP, "    try:\n        return _TEST_STATS[name]\n"))
+V("C06", "table-at-module-level-swapped", "fire", "C06.R1", "the hoisted table maps q to the tilde statistic",
+  ("src/pyhf/infer/utils.py", "def get_test_stat(name):", "import types\n\n_TEST_STATS = types.MappingProxyType({\"q0\": q0, \"q\": qmu_tilde, \"qtilde\": qmu})\n\n\ndef get_test_stat(name):"),
+  ("src/pyhf/infer/utils.py", _TS_MAP, "    try:\n        return _TEST_STATS[name]\n"))
+_IC = "    interpcodes = {\n        0: code0 if do_tensorized_calc else _slow_code0,\n        1: code1 if do_tensorized_calc else _slow_code1,\n        2: code2 if do_tensorized_calc else _slow_code2,\n        4: code4 if do_tensorized_calc else _slow_code4,\n        '4p': code4p if do_tensorized_calc else _slow_code4p,\n    }\n\n    try:\n        return interpcodes[interpcode]\n"
+V("C03", "get-table-of-pairs", "silent", "", "interpolators.get as a table of (fast, slow) pairs indexed by the flag",
+  ("src/pyhf/interpolators/__init__.py", _IC, "    interpcodes = {0: (code0, _slow_code0), 1: (code1, _slow_code1), 2: (code2, _slow_code2), 4: (code4, _slow_code4), '4p': (code4p, _slow_code4p)}\n    which = 0 if do_tensorized_calc else 1\n\n    try:\n        return interpcodes[interpcode][which]\n"))
+V("C03", "get-table-of-pairs-crossed", "fire", "C03.R6", "the pair table gives code 1 the slow twin of code 2",
+  ("src/pyhf/interpolators/__init__.py", _IC, "    interpcodes = {0: (code0, _slow_code0), 1: (code1, _slow_code2), 2: (code2, _slow_code1), 4: (code4, _slow_code4), '4p': (code4p, _slow_code4p)}\n    which = 0 if do_tensorized_calc else 1\n\n    try:\n        return interpcodes[interpcode][which]\n"))
+_SC = "            constraints = [{'type': 'eq', 'fun': lambda v: v[indices] - values}]\n"
+V("C05", "constraint-named-function", "silent", "", "the SLSQP equality constraint as a named function over numpy calls",
+  ("src/pyhf/optimize/opt_scipy.py", "import scipy\n", "import scipy\nimport numpy as np\n"),
+  ("src/pyhf/optimize/opt_scipy.py", _SC, "            def fixed_vals_residual(pars):\n                return np.subtract(np.take(pars, indices), values)\n\n            constraints = [{'type': 'eq', 'fun': fixed_vals_residual}]\n"))
+V("C05", "constraint-named-function-wrong-operand", "fire", "C05.R3", "the named constraint subtracts the indices instead of the fixed values",
+  ("src/pyhf/optimize/opt_scipy.py", "import scipy\n", "import scipy\nimport numpy as np\n"),
+  ("src/pyhf/optimize/opt_scipy.py", _SC, "            def fixed_vals_residual(pars):\n                return np.subtract(np.take(pars, indices), indices)\n\n            constraints = [{'type': 'eq', 'fun': fixed_vals_residual}]\n"))
